@@ -32,8 +32,25 @@ pub trait Unweighted:
     + graaf::Empty
 {
     const NAME: &'static str;
-    /// Build from a contiguous model: `empty(n)` then `add_arc`.
+    /// Build from a contiguous model. The construction route depends on the
+    /// model, so that every monitor meets digraphs made in every public way:
+    /// mostly `empty(n)` + `add_arc` in ascending order, sometimes `add_arc`
+    /// in a scrambled order, sometimes `From<iterator>` (`build_alt`).
     fn build(m: &Model) -> Self {
+        match (m.size() + 2 * m.n()) % 5 {
+            3 => Self::build_alt(m),
+            4 => {
+                let mut d = Self::empty(m.n());
+                for (u, v) in arcs_in_some_order(m) {
+                    d.add_arc(u, v);
+                }
+                d
+            }
+            _ => Self::build_classic(m),
+        }
+    }
+    /// `empty(n)` then `add_arc` in ascending order.
+    fn build_classic(m: &Model) -> Self {
         assert!(m.is_contig() && m.n() > 0);
         let mut d = Self::empty(m.n());
         for &(u, v) in m.arcs.keys() {
